@@ -38,9 +38,10 @@ MODELS = {
     "MC_read": ("MC_core", cluster([1, 2, 3], [1, 2, 3], [])),
     "MC_snap": ("MC_core", cluster([1, 2, 3], [1, 2, 3], [])),
     "MC_reqsnap": ("MC_core", cluster([1, 2], [1, 2], [])),
+    "MC_async": ("MC_core", cluster([1, 2], [1], [2])),
 }
 # models whose quick configuration is small enough for the quick tier; the rest run in the thorough tier only
-QUICK = {"MC_elect", "MC_repl", "MC_ready", "MC_single", "MC_prevote", "MC_transfer", "MC_conf", "MC_read", "MC_snap", "MC_reqsnap"}
+QUICK = {"MC_elect", "MC_repl", "MC_ready", "MC_single", "MC_prevote", "MC_transfer", "MC_conf", "MC_read", "MC_snap", "MC_reqsnap", "MC_async"}
 
 CONFIGS = {
     "C01": ["MC_repl", "MC_change", "MC_single"],
@@ -48,8 +49,8 @@ CONFIGS = {
     "C03": ["MC_elect", "MC_change", "MC_prevote"],
     "C04": ["MC_repl", "MC_ready", "MC_change"],
     "C05": ["MC_repl", "MC_change", "MC_single"],
-    "C06": ["MC_ready", "MC_single", "MC_elect"],
-    "C07": ["MC_ready", "MC_single", "MC_repl"],
+    "C06": ["MC_ready", "MC_single", "MC_elect", "MC_async"],
+    "C07": ["MC_ready", "MC_single", "MC_repl", "MC_async"],
     "C08": ["MC_read"],
     "C09": ["MC_conf"],
     "C13": ["MC_repl", "MC_snap"],
@@ -80,6 +81,42 @@ def run_tlc(name, module, tier, outdir, seed, workers=12, timeout=None):
         except subprocess.TimeoutExpired:
             complete = False
     return raw, cfg, complete, time.time() - t0
+
+
+def run_tlc_big(name, module, outdir, seed, workers=12, timeout=1200):
+    """Thorough tier: the larger scope <name>_thorough.cfg is model-checked at the specification level only
+    (every predicate on every transition, schedule printing off); replay on the real code uses <name>.cfg."""
+    src = os.path.join(vlib.SPEC, "MC", name + "_thorough.cfg")
+    if not os.path.exists(src):
+        return None
+    tmp = os.path.join(vlib.SPEC, "MC", "BIG_%s_%d.cfg" % (name, os.getpid()))
+    open(tmp, "w").write(open(src).read().replace("PrintReplay = TRUE", "PrintReplay = FALSE"))
+    raw = os.path.join(outdir, name + ".big.tlc.out")
+    md = os.path.join(outdir, "mdbig_" + name)
+    cmd = ["tlc", "-workers", str(workers), "-seed", str(seed), "-metadir", md, "-cleanup", "-noGenerateSpecTE",
+           "-config", os.path.join("MC", os.path.basename(tmp)), os.path.join("MC", module + ".tla")]
+    env = dict(os.environ, JAVA_TOOL_OPTIONS="-Dtlc2.tool.impl.Tool.cdot=true -Xss256m")
+    t0 = time.time()
+    complete = True
+    with open(raw, "w") as f:
+        try:
+            subprocess.run(cmd, cwd=vlib.SPEC, stdout=f, stderr=subprocess.STDOUT, timeout=timeout, env=env)
+        except subprocess.TimeoutExpired:
+            complete = False
+    os.remove(tmp)
+    subprocess.run(["rm", "-rf", md])
+    _, mcviol, gen, distinct, ok, errors = parse_tlc(raw)
+    if not distinct:
+        txt = open(raw, errors="replace").read()
+        m = re.findall(r"([\d,]+) states generated[^\n]*?([\d,]+) distinct states found", txt)
+        if m:
+            gen, distinct = int(m[-1][0].replace(",", "")), int(m[-1][1].replace(",", ""))
+    os.remove(raw)
+    if errors and not ok and complete:
+        raise vlib.ToolError("TLC failed on %s_thorough.cfg: %s" % (name, errors[:3]))
+    return {"cfg": name + "_thorough.cfg", "tlc_states_generated": gen, "tlc_distinct_states": distinct,
+            "tlc_complete": bool(ok and complete), "tlc_wall_s": round(time.time() - t0, 1), "mcviol": mcviol,
+            "note": "specification-level model checking of the larger scope (schedule printing off)"}
 
 
 def parse_tlc(raw):
@@ -186,11 +223,14 @@ def run(pid, tier, seed, outdir):
         if tier == "quick" and name not in QUICK:
             continue
         module, ccfg = MODELS[name]
-        raw, cfgfile, complete, wall = run_tlc(name, module, tier, outdir, seed)
+        raw, cfgfile, complete, wall = run_tlc(name, module, "quick", outdir, seed, timeout=240 if tier == "quick" else 1500)
         schedules, mcviol, gen, distinct, ok, errors = parse_tlc(raw)
         os.remove(raw)
         if errors and not ok:
             raise vlib.ToolError("TLC failed on %s: %s" % (cfgfile, errors[:3]))
+        big = run_tlc_big(name, module, outdir, seed) if tier == "thorough" else None
+        if big:
+            mcviol = mcviol + big.pop("mcviol")
         lv = leaves(schedules)
         budget = REPLAY_BUDGET[tier]
         total = sum(len(h) for h in lv)
@@ -249,6 +289,10 @@ def run(pid, tier, seed, outdir):
                  "schedules_replayed_on_impl": n_sched, "impl_events": n_ev, "inapplicable_choices": n_skip,
                  "impl_drift_events": len(res["drift"]), "spec_level_violations": len(spec_viol),
                  "impl_violations": len(mine)}
+        if big:
+            model["larger_scope"] = big
+            cov["states"] += big["tlc_distinct_states"]
+            cov["transitions"] += big["tlc_states_generated"]
         cov["models"].append(model)
         cov["states"] += distinct
         cov["transitions"] += gen
